@@ -338,12 +338,13 @@ pub fn execute(h: &History, want: &str, rep: &mut Report) -> Option<Violation> {
                     }
                     // "the hysteresis window kept the previous note" can only be told from outside when the input as
                     // given and its clamped value (C19 lets an out-of-range input stand for either) both lie inside the
-                    // window; otherwise the same note may just as well be the history-free result
+                    // window; otherwise the same note may just as well be the history-free result of the clamped value
                     let clamped_in_window = prev.map(|p| {
                         let c = v64.clamp(0.0, 10.0);
                         c > p as f64 / 12.0 - HYST && c < p as f64 / 12.0 + SEMI + HYST
                     }).unwrap_or(false);
-                    let kept_here = note == prev.unwrap_or(255) && kept && clamped_in_window;
+                    // (... unless it differs from the history-free result: then only the window can have kept it)
+                    let kept_here = note == prev.unwrap_or(255) && kept && (clamped_in_window || note != fresh_note);
                     if kept_here && !(fr >= -HYST - 2e-6 && fr <= SEMI + HYST + 2e-6) {
                         fail!("C19", "fraction-window", format!("convert({}) kept note {} by hysteresis but the fraction {} is outside [-0.1, 1.1] semitone", v, note, c.fraction), i);
                     }
@@ -795,7 +796,41 @@ pub fn first_conversions(ctx: &Ctx, want: &str) -> Report {
         vec![Op::Forbid((0..12).collect()), Op::Allow(vec![0, 4, 7])],
         vec![Op::Forbid(vec![11]), Op::Allow(vec![11]), Op::Forbid(vec![0])],
         vec![Op::EditStorm(0, 3, 7), Op::Allow(vec![3])],
+        // several edits that end on the chromatic scale again: a quantizer that has never converted has no history,
+        // whatever its scale has been through
+        vec![Op::Forbid(vec![0]), Op::Allow(vec![2]), Op::Allow(vec![0])],
+        vec![Op::Forbid(vec![0]), Op::Allow(vec![]), Op::Allow(vec![0, 0])],
+        vec![Op::Forbid(vec![0, 1, 2]), Op::Allow(vec![2]), Op::Allow(vec![1]), Op::Allow(vec![0])],
+        vec![Op::Forbid(vec![1, 2, 3, 4, 5, 6, 7, 8, 9, 10, 11, 0]), Op::Allow((0..12).collect())],
+        vec![Op::Forbid(vec![0, 2, 3, 4, 5, 6, 7, 8, 9, 10, 11, 1]), Op::Allow(vec![5]), Op::Allow((0..12).rev().collect())],
+        vec![Op::Forbid(vec![0, 11]), Op::Allow(vec![11]), Op::Forbid(vec![5]), Op::Allow(vec![5]), Op::Allow(vec![0])],
+        vec![Op::Forbid(vec![0]), Op::Forbid(vec![1]), Op::Allow(vec![1]), Op::Allow(vec![0])],
     ];
+    // ... and seeded random edit histories that end on the chromatic scale
+    let mut preludes = preludes;
+    {
+        let mut r = Rng::derive(ctx.seed, "quant.first_conversion_preludes", 0);
+        for _ in 0..(if small { 2 } else { 24 }) {
+            let mut p = Vec::new();
+            for _ in 0..1 + r.below(5) {
+                let list: Vec<u8> = (0..r.below(5)).map(|_| r.below(12) as u8).collect();
+                p.push(if r.chance(0.6) { Op::Forbid(list) } else { Op::Allow(list) });
+            }
+            let mut all: Vec<u8> = (0..12).collect();
+            if r.chance(0.5) {
+                all.reverse();
+            }
+            if r.chance(0.5) {
+                // one note at a time
+                for n in all {
+                    p.push(Op::Allow(vec![n]));
+                }
+            } else {
+                p.push(Op::Allow(all));
+            }
+            preludes.push(p);
+        }
+    }
     par_shards(ctx, preludes.len(), |j| {
         let mut rep = Report::new();
         let pre = &preludes[j];
